@@ -10,7 +10,7 @@
 (***************************************************************************)
 EXTENDS Naturals, Sequences, TLC, Json
 
-CONSTANTS Kind,      \* "plain" (SHA-2, SHA-3), "shake", "blake", "sha2" (SHA-2 with the counter hook)
+CONSTANTS Kind,      \* "plain" (SHA-2, SHA-3), "shake", "blake", "sha2" / "blakectr" (SHA-2 / BLAKE2s with the counter hook)
           Depth,     \* calls per history
           NSlots,    \* instances
           LenC,      \* symbolic input-length classes
@@ -28,14 +28,16 @@ Init == mode = [s \in Slots |-> IF s = 0 THEN "in" ELSE "none"] /\ hist = <<>>
 
 Update(s, c) == mode[s] = "in" /\ Do(Call("update", s, c), mode)
 Reset(s) == mode[s] # "none" /\ Do(Call("reset", s, "-"), [mode EXCEPT ![s] = "in"])
-Clone(s, t) == Kind # "blake" /\ mode[s] # "none" /\ s # t /\ Do([op |-> "clone", h |-> s, arg |-> "-", h2 |-> t], [mode EXCEPT ![t] = mode[s]])
+IsBlake == Kind \in {"blake", "blakectr"}
+HasCtr == Kind \in {"sha2", "blakectr"}
+Clone(s, t) == ~IsBlake /\ mode[s] # "none" /\ s # t /\ Do([op |-> "clone", h |-> s, arg |-> "-", h2 |-> t], [mode EXCEPT ![t] = mode[s]])
 \* SHA-2 / SHA-3: every finalization resets
 FinPlain(s, f) == Kind \in {"plain", "sha2"} /\ mode[s] = "in" /\ Do(Call(f, s, "-"), mode)
 \* BLAKE2s: finalize_write leaves the instance unusable until reset
-FinBlake(s) == Kind = "blake" /\ mode[s] = "in" /\ Do(Call("finalize_write", s, "-"), [mode EXCEPT ![s] = "dead"])
-FinBlakeR(s) == Kind = "blake" /\ mode[s] = "in" /\ Do(Call("finalize_reset_write", s, "-"), mode)
+FinBlake(s) == IsBlake /\ mode[s] = "in" /\ Do(Call("finalize_write", s, "-"), [mode EXCEPT ![s] = "dead"])
+FinBlakeR(s) == IsBlake /\ mode[s] = "in" /\ Do(Call("finalize_reset_write", s, "-"), mode)
 \* the hook moves the count of processed bytes to just below a power of two; the instance stays in absorbing mode
-Skip(s, c) == Kind = "sha2" /\ mode[s] = "in" /\ Do(Call("skip", s, c), mode)
+Skip(s, c) == HasCtr /\ mode[s] = "in" /\ Do(Call("skip", s, c), mode)
 Flip(s) == Kind = "shake" /\ mode[s] = "in" /\ Do(Call("flip", s, "-"), [mode EXCEPT ![s] = "out"])
 Extract(s, c) == Kind = "shake" /\ mode[s] = "out" /\ Do(Call("extract", s, c), mode)
 FlipExtract(s, c) == Kind = "shake" /\ mode[s] = "in" /\ Do(Call("flip_extract", s, c), [mode EXCEPT ![s] = "out"])
@@ -56,7 +58,7 @@ Spec == Init /\ [][Next]_vars
 \* design invariants of the API model
 ModeOk == \A s \in Slots : mode[s] \in {"none", "in", "out", "dead"}
 KindOk == /\ (Kind # "shake" => \A s \in Slots : mode[s] # "out")
-          /\ (Kind # "blake" => \A s \in Slots : mode[s] # "dead")
+          /\ (~IsBlake => \A s \in Slots : mode[s] # "dead")
 \* emit each complete history once (hist is part of the state, so histories are distinct states)
-Emit == (Len(hist) = Depth /\ (Kind = "sha2" => \E i \in 1..Depth : hist[i].op = "skip")) => PrintT(<<"SCRIPT", ToJson(hist)>>)
+Emit == (Len(hist) = Depth /\ (HasCtr => \E i \in 1..Depth : hist[i].op = "skip")) => PrintT(<<"SCRIPT", ToJson(hist)>>)
 =============================================================================
